@@ -50,8 +50,9 @@ CONSTANTS Domains,      \* sequence of check domains; a domain is a sequence of 
           MaxName,      \* longest enumerated name
           MinId, MaxId, \* bounds of the id length
           QTypes,       \* subset of {"A", "AAAA", "other"}
-          Nodes, Ids, CacheExp, TTLs, Caps, MaxTime, MaxOps,
+          Nodes, Ids, CacheExp, TTLs, Caps, Ticks, MaxTime, MaxOps,
           WebCaseSensitive, WebSkipsSuffix, SharedKey, KeepOldLocal, NoLocalExpiry, NoNamespace,
+          SplitDNS,     \* TRUE: the two halves of Check (local cache, then store) are separate steps
           KeepHist
 
 Inf == 1000000
@@ -155,16 +156,17 @@ VARIABLES v,       \* part 1: the enumerated vector [name, qt]
           latest,  \* ghost: id -> the latest DNS query with that id
           seen,    \* ghost: id -> records of all DNS queries with that id
           res,     \* the last operation and its result
+          pend,    \* store writes of Check calls that have updated the local cache only (SplitDNS)
           nops, hist
-vars == <<v, now, par, local, store, latest, seen, res, nops, hist>>
-view == <<v, now, par, local, store, latest, seen, res, nops>>
+vars == <<v, now, par, local, store, latest, seen, res, pend, nops, hist>>
+view == <<v, now, par, local, store, latest, seen, res, pend, nops>>
 
 NoRes == [op |-> "init", node |-> "", id |-> "", hc |-> "", status |-> 0, val |-> NoVal, gm |-> "", t |-> 0]
 Pars == {[ttl |-> t, cap |-> Inf] : t \in TTLs} \cup {[ttl |-> Inf, cap |-> c] : c \in Caps}
 NoVec == [name |-> <<>>, qt |-> "A"]
 
 StateInit == /\ now = 0 /\ local = [n \in Nodes |-> EmptyMap] /\ store = <<>>
-             /\ latest = EmptyMap /\ seen = EmptyMap /\ res = NoRes /\ nops = 0 /\ hist = <<>>
+             /\ latest = EmptyMap /\ seen = EmptyMap /\ res = NoRes /\ pend = {} /\ nops = 0 /\ hist = <<>>
 Init == StateInit /\ par \in Pars /\ v = NoVec
 
 H(e) == hist' = IF KeepHist THEN Append(hist, e) ELSE hist
@@ -173,20 +175,35 @@ HE(a, n, i, d, ok, hc, gm) == [a |-> a, n |-> n, i |-> i, d |-> d, ok |-> ok, hc
 
 Tick(d) == /\ now + d <= MaxTime /\ now' = now + d
            /\ H(HE("Tick", "", "", d, TRUE, "", ""))
-           /\ UNCHANGED <<v, par, local, store, latest, seen, res, nops>>
+           /\ res' = NoRes
+           /\ UNCHANGED <<v, par, local, store, latest, seen, pend, nops>>
 
 \* Check on node n for a well-formed check name with id i; val is the record
 \* of the client; setOK: the store accepted the write
-DoDNS(n, i, val, setOK) ==
+DoDNSLocal(n, i, val, setOK) ==
     /\ LET old == Ent(local[n], i)
            keep == KeepOldLocal /\ old.present /\ now <= old.exp
        IN local' = [local EXCEPT ![n] = Put(@, i, IF keep THEN old
                                                    ELSE [present |-> TRUE, val |-> val, exp |-> now + CacheExp])]
-    /\ store' = IF setOK THEN SPut(store, par, SKey(i), val, now) ELSE store
     /\ latest' = Put(latest, i, [present |-> TRUE, val |-> val, t |-> now, node |-> n, setOK |-> setOK])
     /\ seen' = Put(seen, i, Seen(seen, i) \cup {val})
     /\ res' = [op |-> "dns", node |-> n, id |-> i, hc |-> "check", status |-> 0, val |-> val, gm |-> "ok", t |-> now]
     /\ UNCHANGED <<v, now, par>>
+DoDNS(n, i, val, setOK) ==
+    /\ DoDNSLocal(n, i, val, setOK)
+    /\ store' = IF setOK THEN SPut(store, par, SKey(i), val, now) ELSE store
+    /\ UNCHANGED pend
+\* the same in two steps, other operations in between (concurrent requests)
+DoDNSBegin(n, i, val, setOK) ==
+    /\ DoDNSLocal(n, i, val, setOK)
+    /\ pend' = pend \cup {[id |-> i, val |-> val, setOK |-> setOK]}
+    /\ UNCHANGED store
+DNSEnd(p) ==
+    /\ p \in pend /\ pend' = pend \ {p}
+    /\ store' = IF p.setOK THEN SPut(store, par, SKey(p.id), p.val, now) ELSE store
+    /\ res' = NoRes
+    /\ H(HE("DNSEnd", "", p.id, 0, p.setOK, "", ""))
+    /\ UNCHANGED <<v, now, par, local, latest, seen, nops>>
 
 \* GET /dnscheck/test on node n; hc = "check" iff the host is a well-formed
 \* check name (then i is its id); gm: how the store answers a Get
@@ -203,27 +220,27 @@ DoWeb(n, hc, i, gm) ==
     /\ LET w == WebResult(n, hc, i, gm) IN
        /\ store' = w.es
        /\ res' = [op |-> "web", node |-> n, id |-> i, hc |-> hc, status |-> w.status, val |-> w.val, gm |-> gm, t |-> now]
-    /\ UNCHANGED <<v, now, par, local, latest, seen>>
+    /\ UNCHANGED <<v, now, par, local, latest, seen, pend>>
 
 \* another user of the same store writes under the same id in its own namespace
 DoForeign(i, val) ==
     /\ par.cap = Inf
     /\ store' = SPut(store, par, FKey(i), val, now)
     /\ res' = [op |-> "foreign", node |-> "", id |-> i, hc |-> "", status |-> 0, val |-> val, gm |-> "", t |-> now]
-    /\ UNCHANGED <<v, now, par, local, latest, seen>>
+    /\ UNCHANGED <<v, now, par, local, latest, seen, pend>>
 
 Step == nops < MaxOps /\ nops' = nops + 1
-DNS(n, i, setOK) == Step /\ DoDNS(n, i, [q |-> nops + 1], setOK) /\ H(HE("DNS", n, i, 0, setOK, "check", ""))
-\* a web request changes nothing but the recency order of the store, so it is
-\* not counted against MaxOps (the reachable states stay finite)
-Web(n, hc, i, gm) == (KeepHist => Step) /\ (~KeepHist => UNCHANGED nops) /\ DoWeb(n, hc, i, gm)
-                     /\ H(HE("Web", n, i, 0, TRUE, hc, gm))
+DNS(n, i, setOK) == /\ Step
+                    /\ IF SplitDNS THEN DoDNSBegin(n, i, [q |-> nops + 1], setOK) ELSE DoDNS(n, i, [q |-> nops + 1], setOK)
+                    /\ H(HE("DNS", n, i, 0, setOK, "check", ""))
+Web(n, hc, i, gm) == Step /\ DoWeb(n, hc, i, gm) /\ H(HE("Web", n, i, 0, TRUE, hc, gm))
 Foreign(i) == Step /\ DoForeign(i, [q |-> 1000 + nops]) /\ H(HE("Foreign", "", i, 0, TRUE, "", ""))
 
-Next == \/ \E d \in 1..2 : Tick(d)
+Next == \/ \E d \in Ticks : Tick(d)
         \/ \E n \in Nodes, i \in Ids, ok \in BOOLEAN : DNS(n, i, ok)
         \/ \E n \in Nodes, hc \in {"check", "foreign"}, i \in Ids, gm \in {"ok", "err", "rl"} : Web(n, hc, i, gm)
         \/ \E i \in Ids : Foreign(i)
+        \/ \E p \in pend : DNSEnd(p)
 Spec == Init /\ [][Next]_vars
 
 \* ---- properties of part 2, as predicates so that the trace spec evaluates
